@@ -97,7 +97,13 @@ typedef unsigned long pstm_word;
 #    error "64bit digits requires GCC"
 #   endif
 typedef unsigned long pstm_digit;
+#   ifdef MATRIXSSL_VERIF
+/* Verification hook: the same 128-bit type spelled in a way goto-cc honours
+   (it ignores the mode(TI) attribute and would make pstm_word 64 bits). */
+typedef unsigned __int128 pstm_word;
+#   else
 typedef unsigned long pstm_word __attribute__ ((mode(TI)));
+#   endif
 #   define DIGIT_BIT           64
 
 #  else
